@@ -364,19 +364,25 @@ pub fn draw_script(t: &mut Tape) -> Vec<u64> {
 /// Plaintext for the encoders.
 pub fn draw_plain(t: &mut Tape, len: usize) -> Vec<u8> {
     let class = t.below(7);
+    let seed = if matches!(class, 0 | 1 | 4) { 0 } else { t.u64() };
+    plain_from(class, seed, len)
+}
+
+/// The plaintext classes, as a pure function of (class, seed, length), so that big
+/// inputs can be described by three numbers.
+pub fn plain_from(class: u64, seed: u64, len: usize) -> Vec<u8> {
     let mut v = Vec::with_capacity(len);
+    let mut r = crate::prng::Xoshiro::new(seed);
     match class {
         0 => v.resize(len, 0x00),
         1 => v.resize(len, 0xFF),
         2 => {
-            let mut r = crate::prng::Xoshiro::new(t.u64());
             for _ in 0..len {
                 v.push(r.next() as u8);
             }
         }
         3 => {
             // sparse
-            let mut r = crate::prng::Xoshiro::new(t.u64());
             for _ in 0..len {
                 let x = r.next();
                 v.push(if x % 37 == 0 { (x >> 8) as u8 } else { 0 });
@@ -389,7 +395,6 @@ pub fn draw_plain(t: &mut Tape, len: usize) -> Vec<u8> {
         }
         5 => {
             // long runs that saturate probabilities, then a surprise
-            let mut r = crate::prng::Xoshiro::new(t.u64());
             let mut b = 0xFFu8;
             let mut left = 0u64;
             for _ in 0..len {
@@ -402,7 +407,6 @@ pub fn draw_plain(t: &mut Tape, len: usize) -> Vec<u8> {
             }
         }
         _ => {
-            let mut r = crate::prng::Xoshiro::new(t.u64());
             for _ in 0..len {
                 v.push(b"abcde \n"[(r.next() % 7) as usize]);
             }
